@@ -226,7 +226,25 @@ func genYValsCase(r *Rng) Case {
 		idents = append(idents, id)
 	}
 	// the typedefs of a chain in ma, mb (which knows ma as q) and mc, or all of them in mc
-	return Case{"k": "yvals", "idents": idents, "type": t, "probes": toAny(keys), "spread": r.Intn(4)}
+	c := Case{"k": "yvals", "idents": idents, "type": t, "probes": toAny(keys), "spread": r.Intn(4)}
+	// the whole type (a union, an identityref, a chain) behind 0-2 further typedefs, each of which — and the leaf — may
+	// state a default: the nearest one is the leaf's, and every one of them has to be a value of the type
+	if r.Chance(40) {
+		var wrap []any
+		for i, n := 0, r.Intn(3); i < n; i++ {
+			if r.Chance(60) {
+				wrap = append(wrap, keys[r.Intn(len(keys))])
+			} else {
+				wrap = append(wrap, nil)
+			}
+		}
+		c["wrap"] = wrap
+		if r.Chance(40) {
+			c["ldef"] = keys[r.Intn(len(keys))]
+		}
+		c["defs"] = true
+	}
+	return c
 }
 
 func genYVals(r *Rng, tier string, n int, emit func(Case)) {
@@ -393,6 +411,17 @@ func yvalsModules(c Case) []string {
 	for _, td := range v.typedefs {
 		mc.WriteString(td)
 	}
+	for i, d := range carr(c, "wrap") {
+		dflt := ""
+		if ds, ok := d.(string); ok {
+			dflt = " default " + yq(ds) + ";"
+		}
+		mc.WriteString(fmt.Sprintf("  typedef w%d { %s%s }\n", i, stmt, dflt))
+		stmt = fmt.Sprintf("type w%d;", i)
+	}
+	if ds, ok := c["ldef"].(string); ok {
+		stmt += " default " + yq(ds) + ";"
+	}
 	mc.WriteString("  leaf x { " + stmt + " }\n")
 	ma.WriteString("}\n")
 	mb.WriteString("}\n")
@@ -425,7 +454,7 @@ func runYVals(c Case) string {
 		if strings.HasPrefix(err.Error(), "PANIC") {
 			return err.Error()
 		}
-		return "compile-err " + err.Error()
+		return "compile-err"
 	}
 	x := ms.Child("x")
 	if x == nil {
@@ -435,6 +464,13 @@ func runYVals(c Case) string {
 	collectMsgs(map[string]any(c), msgs)
 	t := x.Type()
 	var out []string
+	if cbool(c, "defs") {
+		if d, has := t.Default(); has {
+			out = append(out, "D="+hexTok(d))
+		} else {
+			out = append(out, "D=none")
+		}
+	}
 	for _, p := range carr(c, "probes") {
 		e := t.Validate(nil, []string{"x", p.(string)}, p.(string))
 		if e == nil {
